@@ -1,11 +1,41 @@
 PROPS["C19"] = dict(
     level="exploration",
-    technique="receiver simulator + byte-map model of acknowledged bytes checked after every packet, under ASan/UBSan; exhaustive small scope + random histories",
-    level_text="tbd",
-    level_note="tbd",
+    technique="receiver simulator + byte-map model of acknowledged bytes compared with the real AckTracker after every packet, under ASan/UBSan; "
+              "exhaustive small scope (all arrival orders) + random/directed large histories",
+    level_text="A receiver simulator written for the check turns arrival orders of a segmented stream (1 B .. 64 KiB) into the ACK + <=4 SACK blocks a conforming receiver "
+               "emits (most recent first, strictly above the ACK, coalesced or adjacent, plain duplicate ACKs, ACK packets lost with p in {0,.1,.33,.67,.9}); the delivered packets are real "
+               "TCP PDUs (TCP::sack(), raw option encoded by the check, complete TCP and IP/TCP wire images encoded by the check and parsed by libtins, optionally re-serialised; bare or "
+               "inside IP/Ethernet/IPv6) fed to AckTracker::process_packet directly or through Flow. After EVERY processed packet (and in the initial state) ack_number(), the exact byte set "
+               "of acked_intervals() and a sweep of is_segment_acked(seq,len) queries (every (seq,len) for streams <=16 bytes; otherwise all pairs of ack/run/block/segment/wrap edges +-1, "
+               "every SACKed run exactly and +1 byte, segment boundaries +-1, random ones, len 0, before the ISN, across 2^32) are compared with a byte map indexed by offset from the ISN. "
+               "Exhaustive part: all 8! (quick: 6!) arrival orders of 8 (6) segments incl. one-byte ones x 4 ISNs (no wrap, 2^31 inside, 2^32 inside a SACK block, 2^32 right after a "
+               "one-byte hole) x several loss/block-limit/receiver variants (quick: all 2^6 loss masks).",
+    level_note="Trusted: the ~30-line byte-map model and the ~30-line receiver simulator in harness/c19.cpp; boost::icl's iteration over its own interval_set (bounds are decoded by the check). "
+               "Histories are those of a conforming receiver as the statement assumes (no D-SACK, no block at/below the ACK, ACKs in order, stream < 2^31). With use_sack disabled the model ignores blocks.",
     phases=[dict(name="exhaustive", harness="c19.cpp", flavor="asan", mode="exhaustive", cases=dict(quick=720, thorough=40320)),
-            dict(name="random", harness="c19.cpp", flavor="asan", mode="random", cases=dict(quick=20000, thorough=600000))],
-    rule="tbd",
-    floors=dict(any={"distinct": 1000}),
-    assumptions=[],
+            dict(name="random", harness="c19.cpp", flavor="asan", mode="random", cases=dict(quick=20000, thorough=500000))],
+    rule="case = (segment boundaries, ISN, arrival order, which ACK packets are delivered, block limit, receiver coalescing mode, tracker construction, per-packet encoding); "
+         "distinct = distinct (ISN, boundaries, order, delivery pattern[, variant]); non-trivial = every history processes >=0 delivered packets and the tracker state + queries are checked after "
+         "each one and in the initial state; exhaustive phase: case index = arrival order (factoradic), all orders enumerated",
+    floors=dict(
+        quick={"distinct": 100000, "exhaustive_orders": 720, "exhaustive_histories": 150000, "packets": 800000, "queries": 100000000,
+               "checks:ack_number": 800000, "checks:acked_intervals": 800000,
+               "br:ack-advance-erases-sacked": 50000, "br:ack-jumps-across-2^32": 10000, "br:ack-jumps-across-2^32-sacked-only-before": 1000,
+               "br:ack-jumps-across-2^32-sacked-both-sides": 5000, "br:ack-jumps-across-2^31": 5000, "br:ack-lands-on-seq-0": 1000, "br:ack-lands-on-seq-2^32-1": 1000,
+               "br:sack-block-wraps-2^32": 10000, "br:sack-block-right-edge-0": 3000, "br:sack-block-left-edge-0": 3000, "br:sack-block-spans-2^31": 5000,
+               "br:one-byte-hole-at-ack": 20000, "br:adjacent-blocks-in-packet": 10000, "br:block-joins-known-run": 20000, "br:sacked-run-spans-2^32": 20000,
+               "br:intervals>=3": 50000, "br:ack-packet-lost": 100000, "blocks:4": 30000, "blocks:1": 30000,
+               "q:true-inside-sacked": 5000000, "q:true-below-ack": 5000000, "q:false-crosses-hole": 10000000, "q:false-straddles-ack": 10000000,
+               "q:wraps-2^32-true": 500000, "q:wraps-2^32-false": 5000000, "q:exactly-a-sacked-run": 500000, "q:sacked-run-plus-one-byte": 1000000, "q:starts-before-isn": 5000000,
+               "enc:TCP::sack": 100000, "enc:raw-option": 100000, "enc:wire-TCP-parsed": 30000, "enc:wire-IP-parsed": 30000, "enc:serialize-reparse": 50000,
+               "histories:Flow": 2000, "histories:sack-disabled-start": 500, "histories:directed-ack-across-wrap": 500, "histories:directed-one-byte-hole": 500,
+               "histories:wrap-2^32-inside": 20000},
+        thorough={"distinct": 1000000, "exhaustive_orders": 40320, "exhaustive_histories": 900000, "packets": 20000000, "queries": 2000000000,
+                  "br:ack-jumps-across-2^32-sacked-only-before": 50000, "br:one-byte-hole-at-ack": 1000000, "br:sack-block-wraps-2^32": 500000,
+                  "br:adjacent-blocks-in-packet": 500000, "q:wraps-2^32-true": 20000000, "histories:Flow": 50000, "histories:directed-ack-across-wrap": 10000,
+                  "enc:wire-TCP-parsed": 1000000, "enc:raw-option": 3000000, "enc:TCP::sack": 3000000}),
+    assumptions=["the receiver is conforming: cumulative ACK monotone, SACK blocks strictly above it and truthful (only received bytes), no D-SACK; ACK packets may be lost but arrive in order",
+                 "streams are <= 64 KiB, so everything lies within half the sequence space of the cumulative ACK; queries stay within 40 bytes of the stream",
+                 "bytes before the ISN count as 'below the cumulative ACK' (acknowledged); bytes beyond the stream end are never acknowledged",
+                 "with SACK processing disabled (AckTracker(isn,false) / default constructor, until use_sack()) the expected SACKed set ignores the blocks"],
 )
